@@ -16,6 +16,7 @@ import (
 	"os"
 	"sort"
 	"strconv"
+	"strings"
 )
 
 type sliceFn func(r *rng, n int, emit func(op, res string))
@@ -143,6 +144,9 @@ func opKind(op string) string {
 }
 
 func resKind(res string) string {
+	if len(res) > 24 && !strings.Contains(res[:24], " ") {
+		return res[:8] + "…"
+	}
 	n := 0
 	for i := 0; i < len(res); i++ {
 		if res[i] == ' ' {
